@@ -29,7 +29,7 @@ def run(job):
         orig = open(target).read()
         open(target, "w").write(m["src"])
         try:
-            p = subprocess.run(["/venv/bin/python", "-m", "pytest", "-q", "-x", "-p", "no:cacheprovider", "--timeout=120",
+            p = subprocess.run(["/venv/bin/python", "-m", "pytest", "-q", "-p", "no:cacheprovider", "--timeout=120",
                                 "--continue-on-collection-errors"], cwd=d, capture_output=True, text=True, timeout=600)
             tail = p.stdout.strip().splitlines()[-1] if p.stdout.strip() else ""
         except subprocess.TimeoutExpired:
